@@ -5,7 +5,7 @@ Import ListNotations.
 From SV Require Import Text C01_Lines G_codes G_c01_io C01_Model.
 
 (* the hand-written matcher is for exactly this pattern text *)
-Lemma idpattern_pinned : FASTA_IDPATTERN_TEXT = IDPATTERN_PINNED.
+Lemma idpattern_pinned : FASTA_IDPATTERN_CANON = IDPATTERN_PINNED.
 Proof. reflexivity. Qed.
 
 (* ---------------------------------------------------------------- characters *)
